@@ -856,7 +856,7 @@ func TestReencode(t *testing.T) {
 				return
 			}
 			secs := p.RawSections(data)
-			op := c.PickStr("reencode.op", "unknown-section", "unknown-section", "reorder", "duplicate", "drop", "identity", "unknown-wrap", "length-cancel", "alias-index", "alias-index", "foreign-known-section", "variants-axes", "status-text", "head-of-other-version")
+			op := c.PickStr("reencode.op", "unknown-section", "unknown-section", "reorder", "duplicate", "drop", "identity", "unknown-wrap", "length-cancel", "alias-index", "alias-index", "foreign-known-section", "variants-axes", "status-text", "head-of-other-version", "many-unknown-sections")
 			switch op {
 			case "unknown-section":
 				pos := c.Int("reencode.pos", 0, len(secs)-1) // anywhere before "responses"
@@ -868,6 +868,22 @@ func TestReencode(t *testing.T) {
 				secs = append(ns, secs[pos:]...)
 				c.Fault("reencode-unknown-section")
 				c.Event("unknown section %q (%d bytes) inserted at position %d of %d", name, len(junk), pos, len(secs)-1)
+			case "many-unknown-sections":
+				// so many unknown (empty or small) sections that the section table's arrays pass the
+				// 23/24-entry CBOR head-size steps (the lengths array holds two entries per section)
+				total := c.PickInt("reencode.sectionsTotal", 11, 12, 13, 23, 24, 25, 26)
+				for k := 0; len(secs) < total; k++ {
+					pos := c.Int("reencode.pos", 0, len(secs)-1)
+					junk := c.Bytes("reencode.junk", 0, 6)
+					if c.Chance("reencode.junkEndsLikeMap", 1, 4) {
+						junk = append(junk, 0xa0)
+					}
+					ns := append([]refbundle.RawSection{}, secs[:pos]...)
+					ns = append(ns, refbundle.RawSection{Name: fmt.Sprintf("u%02d", k), Data: junk})
+					secs = append(ns, secs[pos:]...)
+				}
+				c.Fault("reencode-many-unknown-sections")
+				c.Event("%d sections in all", len(secs))
 			case "foreign-known-section":
 				// a section whose name another version defines ("manifest" in b2, "primary" in
 				// b1), holding either a URL or bytes shaped like an index section
@@ -1081,7 +1097,7 @@ func TestReencode(t *testing.T) {
 			plan := c.DrawReaderPlan("disk.read", len(blob), false)
 			rb, err, pi, alloc, _ := readBundle(c, blob, plan)
 			judgeRead(c, blob, rb, err, pi, alloc, "bundle.Read/"+op)
-			if c.Oracle("C05") && pi == nil && (op == "unknown-section" || op == "identity") {
+			if c.Oracle("C05") && pi == nil && (op == "unknown-section" || op == "identity" || op == "many-unknown-sections") {
 				// an unknown section must be stepped over: same content as without it
 				if err != nil {
 					c.Violation("lost-place-at-unknown-section", "bundle.Read", "a bundle with an unknown section before \"responses\" was rejected: %v", err)
@@ -1195,6 +1211,76 @@ func TestConcurrentReaders(t *testing.T) {
 	})
 }
 
+// scaleVariants: the largest variant set the format allows for one URL - 100 x 100
+// possible keys, 100 representations covering one row of 100 keys each - and one
+// more value on an axis (10100 keys), which the writer refuses.
+func scaleVariants(c *core.Ctx) {
+	over := c.Chance("scale.variantsOver", 1, 4)
+	rows, cols := 100, 100
+	if over {
+		cols = 101
+	}
+	lb := &gen.LBundle{Order: map[string][]int{}, Version: "b1", Primary: "https://example.com/v", MultiKey: true}
+	ax := func(prefix string, n int) []string {
+		var vs []string
+		for i := 0; i < n; i++ {
+			vs = append(vs, fmt.Sprintf("%s%d", prefix, i))
+		}
+		return vs
+	}
+	a, b := ax("a", rows), ax("b", cols)
+	variants := "Accept-Language;" + strings.Join(a, ";") + ", Accept-Encoding;" + strings.Join(b, ";")
+	u := "https://example.com/v"
+	var pos []int
+	for i := 0; i < rows; i++ {
+		var keys []string
+		for j := 0; j < cols; j++ {
+			keys = append(keys, a[i]+";"+b[j])
+			pos = append(pos, i)
+		}
+		lb.Exchanges = append(lb.Exchanges, gen.LExchange{URL: u, Resp: gen.LResp{Status: 200, Body: []byte(fmt.Sprintf("row %d", i)),
+			Headers: []gen.HV{{Name: "Content-Type", Value: "text/plain"}, {Name: "Variants", Value: variants}, {Name: "Variant-Key", Value: strings.Join(keys, ", ")}}}})
+	}
+	lb.Order[u] = pos
+	var buf bytes.Buffer
+	var werr error
+	if pi := c.Guard("Bundle.WriteTo", func() { _, werr = lb.ToRepo().WriteTo(&buf) }); pi != nil {
+		c.CheckTotal("Bundle.WriteTo", 0, pi, 0)
+	}
+	c.Event("variant set of %d x %d keys: write err=%v", rows, cols, werr != nil)
+	if over {
+		// (more keys than the format's limit for one URL: refusing is right, and so is
+		// writing a file that reads back completely)
+		if werr != nil {
+			c.Outcome("nt:refused-over-limit")
+			return
+		}
+	} else if werr != nil {
+		if c.Oracle("C03") {
+			c.Violation("write-error", "Bundle.WriteTo/scale", "writer refused a complete variant set of exactly 10000 keys: %v", werr)
+		}
+		return
+	}
+	rb, rerr, pi, alloc, _ := readBundle(c, buf.Bytes(), core.ReaderPlan{ErrAt: -1})
+	if c.Oracle("C10", "C05", "C03") {
+		c.CheckTotal("bundle.Read", buf.Len(), pi, alloc)
+	}
+	if pi != nil {
+		return
+	}
+	if rerr != nil {
+		if c.Oracle("C03", "C05") {
+			c.Violation("read-error", "bundle.Read/scale", "reader rejected the writer's output (variant set of %d keys): %v", rows*cols, rerr)
+		}
+		return
+	}
+	if c.Oracle("C03", "C05") {
+		sameAsModel(c, rb, lb, "scale-variants")
+	}
+	c.Outcome("nt:ok")
+	c.Sig("scale/variants/%v", over)
+}
+
 // TestScale: sizes at which implementations keep thresholds (table capacities,
 // pre-allocation limits, chunk sizes): a site of tens of thousands of small
 // resources with pairwise distinct header values, or a few resources of one
@@ -1204,7 +1290,11 @@ func TestScale(t *testing.T) {
 	rapid.Check(t, func(t *rapid.T) {
 		core.Run(t, "bundle/scale", func(c *core.Ctx) {
 			lb := &gen.LBundle{Order: map[string][]int{}, Version: c.PickStr("bundle.version", "b1", "b2")}
-			n, bodyLen := c.PickInt("scale.many", 33000, 40000, 66000), 3
+			n, bodyLen := c.PickInt("scale.many", 33000, 40000, 66000, 4097, 5003, 9999)+c.Int("scale.manyOdd", 0, 7), 3
+			if c.Chance("scale.variants10000", 1, 4) {
+				scaleVariants(c)
+				return
+			}
 			if c.Chance("scale.fewLarge", 1, 3) {
 				n, bodyLen = c.Int("scale.few", 1, 3), c.PickInt("scale.bodyLen", 1<<20, 1<<20+1, 3<<20+7)
 			}
